@@ -183,7 +183,7 @@ def runSamplewise (c : Cfg) (shards : List (List Batch)) (tree : MTree) : Except
   let mut perEx : Array Json := #[]
   let mut surdCells : Array (List (Metric × List Json)) := #[]
   for shard in shards do
-    let mut st : SwState := []
+    let mut st : SwState := SwState.empty
     let mut pe : List Json := []
     let mut sc : List (Metric × List Json) := []
     for b in shard do
